@@ -771,3 +771,29 @@ func ruleDigestFedFramedBytes(e *Engine, r *Reporter) {
 		blind("digest-fed-framed-bytes: no digest write found outside the keys package")
 	}
 }
+
+// describeDeep: describe_(v), extended — when v is the result of a call to a module function with a body — by the
+// descriptions of what that function can return (one level), so that a value moved behind a helper is still seen.
+func describeDeep(v ssa.Value) string {
+	d := describe_(v)
+	var call *ssa.Call
+	switch x := unwrap(v).(type) {
+	case *ssa.Call:
+		call = x
+	case *ssa.Extract:
+		call, _ = x.Tuple.(*ssa.Call)
+	}
+	if call == nil {
+		return d
+	}
+	g := call.Call.StaticCallee()
+	if g == nil || len(g.Blocks) == 0 || !inModule(pkgOf(g)) {
+		return d
+	}
+	for _, rs := range returnSites(g) {
+		for _, rv := range rs.Results {
+			d += " <- " + describe_(rv)
+		}
+	}
+	return d
+}
